@@ -6,6 +6,7 @@ import (
 	"encoding/json"
 	"errors"
 	"fmt"
+	"math/big"
 	"net/http"
 	"net/http/httptest"
 	"net/url"
@@ -40,6 +41,11 @@ type httpCtrl struct {
 	// writes counts the writes issued; every third one without idempotency key, dry run or schema version travels as a
 	// one-element bulk (application/json and JSON stream in turn) instead of its own route
 	writes int
+	// bigintAsString: every request carries Formance-Bigint-As-String, so that answers go through the API's own
+	// renderers (amounts and volumes as strings) instead of the core types' MarshalJSON
+	bigintAsString bool
+	// violation reports a defect seen in the raw answer (before it is decoded into the controller's types)
+	violation func(code, msg string)
 }
 
 // viaBulk says whether this write goes through POST /_bulk, and in which wire form.
@@ -129,12 +135,151 @@ func (h *httpCtrl) doOn(prefix, method, path string, q url.Values, headers map[s
 	for k, v := range headers {
 		req.Header.Set(k, v)
 	}
+	if h.bigintAsString {
+		req.Header.Set("Formance-Bigint-As-String", "true")
+	}
 	rec := httptest.NewRecorder()
 	h.router.ServeHTTP(rec, req)
 	if h.calls != nil {
 		*h.calls++
 	}
+	if rec.Code/100 == 2 && rec.Body.Len() > 0 && strings.Contains(rec.Header().Get("Content-Type"), "json") {
+		h.inspect(method+" "+u, rec)
+	}
 	return rec
+}
+
+var amountKeys = map[string]bool{"amount": true, "input": true, "output": true, "balance": true}
+
+func isIntegerText(s string) bool {
+	if s == "" {
+		return false
+	}
+	for i, c := range s {
+		if c == '-' && i == 0 && len(s) > 1 {
+			continue
+		}
+		if c < '0' || c > '9' {
+			return false
+		}
+	}
+	return true
+}
+
+// numbersBack turns the amounts the API rendered as strings (bigint-as-string) back into JSON numbers.
+func numbersBack(v any, allValues bool) any {
+	switch x := v.(type) {
+	case map[string]any:
+		for k, e := range x {
+			if str, ok := e.(string); ok && (amountKeys[k] || allValues) && isIntegerText(str) {
+				x[k] = json.Number(str)
+				continue
+			}
+			x[k] = numbersBack(e, false)
+		}
+		return x
+	case []any:
+		for i := range x {
+			x[i] = numbersBack(x[i], false)
+		}
+		return x
+	}
+	return v
+}
+
+// inspect looks at a successful JSON answer as the client receives it: every transaction it contains must carry
+// preCommitVolumes equal to its postCommitVolumes minus its own postings (C03; the same for the effective pair), a
+// rendering the typed decoding below would silently drop. With bigint-as-string the body is then rewritten with
+// numbers so that the controller's types can decode it.
+func (h *httpCtrl) inspect(what string, rec *httptest.ResponseRecorder) {
+	dec := json.NewDecoder(bytes.NewReader(rec.Body.Bytes()))
+	dec.UseNumber()
+	var doc any
+	if err := dec.Decode(&doc); err != nil {
+		return
+	}
+	if h.bigintAsString {
+		aggregated := strings.Contains(what, "/aggregate/balances")
+		if m, ok := doc.(map[string]any); ok && aggregated {
+			m["data"] = numbersBack(m["data"], true)
+		} else {
+			doc = numbersBack(doc, false)
+		}
+		if b, err := json.Marshal(doc); err == nil {
+			rec.Body.Reset()
+			rec.Body.Write(b)
+		}
+	}
+	var walk func(v any)
+	walk = func(v any) {
+		switch x := v.(type) {
+		case map[string]any:
+			if _, isTx := x["postings"]; isTx {
+				if msg := preCommitProblem(x); msg != "" && h.violation != nil {
+					h.violation("C03", what+": "+msg)
+				}
+			}
+			for _, e := range x {
+				walk(e)
+			}
+		case []any:
+			for _, e := range x {
+				walk(e)
+			}
+		}
+	}
+	walk(doc)
+}
+
+// preCommitProblem checks, on a transaction as rendered in JSON, that preCommitVolumes = postCommitVolumes minus the
+// transaction's own postings, for exactly the same account/asset pairs (and the same for the effective volumes).
+func preCommitProblem(tx map[string]any) string {
+	num := func(v any) *big.Int {
+		n := new(big.Int)
+		switch x := v.(type) {
+		case json.Number:
+			n.SetString(x.String(), 10)
+		case string:
+			n.SetString(x, 10)
+		}
+		return n
+	}
+	postings, _ := tx["postings"].([]any)
+	for _, pair := range [][2]string{{"postCommitVolumes", "preCommitVolumes"}, {"postCommitEffectiveVolumes", "preCommitEffectiveVolumes"}} {
+		post, _ := tx[pair[0]].(map[string]any)
+		pre, _ := tx[pair[1]].(map[string]any)
+		if len(post) == 0 {
+			continue
+		}
+		for acc, assets := range post {
+			am, _ := assets.(map[string]any)
+			for asset, vol := range am {
+				pv, _ := vol.(map[string]any)
+				wantIn, wantOut := num(pv["input"]), num(pv["output"])
+				for _, p := range postings {
+					pm, _ := p.(map[string]any)
+					if pm["asset"] != asset {
+						continue
+					}
+					if pm["destination"] == acc {
+						wantIn.Sub(wantIn, num(pm["amount"]))
+					}
+					if pm["source"] == acc {
+						wantOut.Sub(wantOut, num(pm["amount"]))
+					}
+				}
+				preAcc, _ := pre[acc].(map[string]any)
+				preVol, _ := preAcc[asset].(map[string]any)
+				if preVol == nil {
+					return fmt.Sprintf("transaction %v: %s has no entry for %s %s although %s has one", tx["id"], pair[1], acc, asset, pair[0])
+				}
+				if gotIn, gotOut := num(preVol["input"]), num(preVol["output"]); gotIn.Cmp(wantIn) != 0 || gotOut.Cmp(wantOut) != 0 {
+					return fmt.Sprintf("transaction %v: %s of %s %s is (%s,%s); %s minus the transaction's own postings is (%s,%s)", tx["id"], pair[1], acc, asset, gotIn, gotOut, pair[0], wantIn, wantOut)
+				}
+			}
+		}
+	}
+	return ""
 }
 
 func (h *httpCtrl) fail(rec *httptest.ResponseRecorder) error {
@@ -151,6 +296,8 @@ func (h *httpCtrl) fail(rec *httptest.ResponseRecorder) error {
 		e.typed = ledgerstore.ErrTransactionReferenceConflict{}
 	case doc.ErrorCode == "ALREADY_REVERT":
 		e.typed = ledgercontroller.ErrAlreadyReverted{}
+	case rec.Code == http.StatusNotFound && strings.HasPrefix(doc.ErrorMessage, "schema version `"):
+		e.typed = ledgercontroller.ErrSchemaNotFound{}
 	case rec.Code == http.StatusNotFound:
 		e.typed = postgres.ErrNotFound
 	case doc.ErrorCode == "COMPILATION_FAILED":
@@ -161,6 +308,10 @@ func (h *httpCtrl) fail(rec *httptest.ResponseRecorder) error {
 		e.typed = ledgercontroller.ErrNoPostings
 	case doc.ErrorCode == "VALIDATION" && strings.Contains(doc.ErrorMessage, "idempotency"):
 		e.typed = ledgercontroller.ErrInvalidIdempotencyInput{}
+	case doc.ErrorCode == "VALIDATION" && strings.HasPrefix(doc.ErrorMessage, "schema version ["):
+		e.typed = ledgercontroller.ErrSchemaValidationError{}
+	case doc.ErrorCode == "SCHEMA_NOT_SPECIFIED":
+		e.typed = ledgercontroller.ErrSchemaNotSpecified{}
 	default:
 		e.typed = errors.New("api error")
 	}
